@@ -29,7 +29,7 @@ LEVEL_TEXT = ('For every shipped config wrapped directly, through the registered
 LEVEL_NOTE = ('seed(), render() and the default gym.make checker wrappers are outside the statement and broken by the gym version of '
               'this sandbox (0.26 vs <=0.21); seeding goes through inner_env.set_seed.')
 SHARDS = {'quick': 4, 'thorough': 16}
-BUDGET_S = {'quick': 60, 'thorough': 600}
+BUDGET_S = {'quick': 300, 'thorough': 2400}
 RULE = ('case = (config, construction route, seed, action-index sequence, representation switches). non-trivial = sequence with at '
         'least one terminated episode or a representation switch; distinct by (config, route, seed).')
 ASSUMPTIONS = ['twin built from the same file with the same seed consumes randomness in the same order (reset+observation, step+observation)']
